@@ -170,12 +170,12 @@ def plan(tier, seed):
     nr = 10 if quick else 100
     for k in range(nr):
         cases.append({'kind': 'rules', 'k': k, 'n': 500 if quick else 1000, 'weight': 6.0})
-    ns = 4 if quick else 40
+    ns = 4 if quick else 30
     for k in range(ns):
-        cases.append({'kind': 'sites', 'k': k, 'n': 300 if quick else 600, 'weight': 6.0})
-    ng = 4 if quick else 40
+        cases.append({'kind': 'sites', 'k': k, 'n': 200 if quick else 300, 'weight': 60.0})
+    ng = 4 if quick else 30
     for k in range(ng):
-        cases.append({'kind': 'getdt', 'k': k, 'n': 150 if quick else 300, 'weight': 6.0})
+        cases.append({'kind': 'getdt', 'k': k, 'n': 120 if quick else 200, 'weight': 40.0})
     return cases
 
 
@@ -519,7 +519,7 @@ def _sub_input(I, j):
     return [j]
 
 
-def _check_rules(R, cons, I, dtPrev, dtMax, source, detail, perms=None, count_nt=None):
+def _check_rules(R, cons, I, dtPrev, dtMax, source, detail, perms=None, count_nt=None, failed=None):
     P = len(I['names'])
     ident = list(range(P))
     try:
@@ -541,6 +541,8 @@ def _check_rules(R, cons, I, dtPrev, dtMax, source, detail, perms=None, count_nt
                 rel = abs(a - b) / max(abs(a), abs(b), 1e-300)
                 ok = np.isfinite(rel) and rel <= TOL_RULE
             R.worst('rule_%s_%s' % (k, source), rel if np.isfinite(rel) else 1e300)
+            if not ok and failed is not None:
+                failed.add(k)
             R.check('c11.rule.' + k, ok, {'rule': RULE_FUNC[k], 'source': source, 'nphases': P},
                     identity_order=a, permuted_order=b, perm=list(perm), phases=I['names'], dtMax=dtMax, dtPrev=dtPrev, **detail)
     if count_nt is not None:
@@ -564,6 +566,7 @@ class _PhaseRunMonitor:
         self.in_run = in_run
         self.binding = {}
         self.nt = {}
+        self.failed_at = {}        # rule -> first pData.n at which the in-run permutation oracle of that rule failed
 
     def on_build(self, run, model):
         if self.cfg.get('removeCache', True):
@@ -582,7 +585,10 @@ class _PhaseRunMonitor:
         dtMax = float(model.finalTime - model.pData.time[n])
         if not dtMax > 0:
             return
-        base = _check_rules(self.R, model.constraints, I, dtPrev, dtMax, 'in_run', {'step': int(c['step'])}, count_nt=self.nt)
+        failed = set()
+        base = _check_rules(self.R, model.constraints, I, dtPrev, dtMax, 'in_run', {'step': int(c['step'])}, count_nt=self.nt, failed=failed)
+        for k in failed:
+            self.failed_at.setdefault(k, n)
         if base:
             lim = [k for k in RULES if base[k] < dtMax]
             if lim:
@@ -684,10 +690,15 @@ def _run_precip(case, R):
             R.worst('observed_only_cached_steps_diff', abs(len(A['time']) - len(B['time'])))
             continue
         npairs += 1
-        R.check('c11.phase.steps', len(A['time']) == len(B['time']) and runA.capped == runB.capped, mech0,
-                steps_A=len(A['time']) - 1, steps_B=len(B['time']) - 1, order=cfgB['phases'], capped=(runA.capped, runB.capped))
+        steps_ok = len(A['time']) == len(B['time']) and runA.capped == runB.capped
         firsts = [(f, k) for k, (w, f) in res.items() if f is not None]
         first = min(firsts) if firsts else None
+        # attribution: step-size rules whose in-run permutation oracle had already failed when the runs separated
+        # (time[f] results from the step size chosen in state f-1)
+        fired = sorted(k for k, n0 in monA.failed_at.items() if first is not None and n0 <= first[0] - 1)
+        mech0 = dict(mech0, in_run_rule_violations='+'.join(fired) if fired else 'none')
+        R.check('c11.phase.steps', steps_ok, mech0, steps_A=len(A['time']) - 1, steps_B=len(B['time']) - 1, order=cfgB['phases'],
+                capped=(runA.capped, runB.capped))
         for k, (w, f) in res.items():
             R.worst('traj_' + k, w if np.isfinite(w) else 1e300)
             mon = 'c11.phase.time_grid' if k == 'time' else 'c11.phase.histories'
